@@ -16,7 +16,11 @@ def make_resolver(func, report=None):
         report = MAIN_REPORT
 
     def resolver_wrapper(*args, **kwargs):
-        report.execute_hooks('pedal.resolvers', 'resolve')
+        # The event belongs to the report that is being resolved
+        resolved_report = kwargs.get('report', args[0] if args else report)
+        if not hasattr(resolved_report, 'execute_hooks'):
+            resolved_report = report
+        resolved_report.execute_hooks('pedal.resolvers', 'resolve')
         return func(*args, **kwargs)
 
     return resolver_wrapper
